@@ -614,7 +614,7 @@ func drawMode(rt *rapid.T) string {
 func TestRandom(t *testing.T) {
 	ev.SetChecks(ev.Scale(15000, 1500000))
 	maxDepth := ev.Pick(5, 8)
-	rapid.Check(t, func(rt *rapid.T) {
+	ev.Check(t, func(rt *rapid.T) {
 		o := treeOpts()
 		p := gen.HostilePolicy(rt, o, 2, func() *ir.Expr { return gen.GenTree(rt, rapid.IntRange(1, maxDepth).Draw(rt, "depth"), o) })
 		c := &Case{Policy: p, Mode: drawMode(rt)}
@@ -632,7 +632,7 @@ func TestRandom(t *testing.T) {
 // TestRandomDocument: several policies in one document with layout noise between them.
 func TestRandomDocument(t *testing.T) {
 	ev.SetChecks(ev.Scale(1500, 100000))
-	rapid.Check(t, func(rt *rapid.T) {
+	ev.Check(t, func(rt *rapid.T) {
 		o := treeOpts()
 		n := rapid.IntRange(0, 4).Draw(rt, "npol")
 		c := &DocCase{}
@@ -916,7 +916,7 @@ func TestReject(t *testing.T) {
 		class := class
 		t.Run(class, func(t *testing.T) {
 			ev.SetChecks(ev.Scale(1200, 60000))
-			rapid.Check(t, func(rt *rapid.T) {
+			ev.Check(t, func(rt *rapid.T) {
 				g := &negGen{rt: rt, o: gen.TreeOpts{ParserNormal: true, Keys: gen.KeysHostile, NoUFFFD: true}}
 				c := &NegCase{Class: class, Text: g.text(class)}
 				if !runNeg(c, func(string, string) {}) {
@@ -994,6 +994,9 @@ func TestReplay(t *testing.T) {
 	}
 	if err != nil {
 		t.Fatal(err)
+	}
+	if ev.ReplayFuzz(t, rf, fuzzProps, nil) {
+		return
 	}
 	var sub, msg string
 	var cs any
